@@ -73,6 +73,9 @@ class height_pressure(PseudoNetCDFFile):
         for i, (t, d) in enumerate(times):
             if (t, d) != (self.STIME, self.SDATE):
                 break
+        else:
+            # the time stamp never changes: a single time step
+            i = times.shape[0]
         self.SDATE = self.SDATE.view('i')
         self.createDimension('LAY', i / 2)
         self.createDimension('TSTEP', times.shape[0] / i)
